@@ -92,7 +92,7 @@ class Machine(object):
         secret = tape_bytes(case["secret"][0], case["secret"][1], 1)
         # k-1 blocks of the chosen pattern, then spare seeded blocks: an implementation that draws more than k-1
         # coefficients (e.g. re-draws "bad" ones) is judged by the coefficient oracle, not by tape exhaustion
-        tape = tape_bytes(case["tape"], case["tseed"], k - 1) + data("spare%s" % case["tseed"], 16 * 6)
+        tape = tape_bytes(case["tape"], case["tseed"], k - 1) + data("spare%s" % case["tseed"], 16 * 6 + 4096)
         ctx.nontrivial = True
         ctx.state((k, min(n, 16), ssss, case["tape"], case["secret"][0]))
         entropy.set_tape(tape)
@@ -126,12 +126,16 @@ class Machine(object):
         if coeffs[0] != int.from_bytes(secret, "big"):
             ctx.violate("shamir/split/constant-term", "the constant term of the share polynomial is not the secret",
                         observed=hex(coeffs[0]), expected=secret.hex())
-        drawn = sorted(int.from_bytes(consumed[i:i + 16], "big") for i in range(0, len(consumed) - 15, 16))
+        # the coefficients are the first k-1 blocks the random source delivered (an implementation may fetch ahead; it
+        # may not pick and choose among what it fetched)
+        drawn = sorted(int.from_bytes(consumed[i:i + 16], "big") for i in range(0, min(len(consumed), 16 * (k - 1)) - 15, 16))
         if sorted(coeffs[1:]) != drawn:
             ctx.violate("shamir/split/coefficients-not-from-rng",
                         "the non-constant coefficients of the share polynomial are not exactly the 16-byte blocks drawn from the "
                         "random source (%d bytes drawn for k=%d)" % (len(consumed), k),
                         observed=[hex(c) for c in sorted(coeffs[1:])], expected=[hex(c) for c in drawn])
+        if case["tseed"] % 8 == 0 and k <= 6:
+            self._after_fork(ctx, Shamir, k, n, ssss, case)
         by_idx = dict(shares)
         for op in case["ops"]:
             ctx.step()
@@ -208,6 +212,54 @@ class Machine(object):
                     if int(ea ** 3) != G.power(a, 3):
                         ctx.violate("shamir/field/pow", "_Element power differs", observed=hex(int(ea ** 3)), expected=hex(G.power(a, 3)))
                 ctx.probe("field_ops_checked", len(vals))
+
+    def _after_fork(self, ctx, Shamir, k, n, ssss, case):
+        """The process forks after a deal (crash-restart's cousin: two processes continue from one memory image).  The
+        child's random source delivers other bytes from now on; what the child deals must come from *them*."""
+        import json
+        import os
+        secret2 = data("forked-secret%s" % case["tseed"], 16)
+        child_tape = data("child-tape%s" % case["tseed"], 16 * (k - 1) + 4096 + 96)
+        r, w = os.pipe()
+        pid = os.fork()
+        if pid == 0:
+            out = {"err": None}
+            try:
+                os.close(r)
+                entropy.set_tape(child_tape)
+                sh = Shamir.split(k, n, secret2, ssss)
+                out["shares"] = [[int(i), bytes(v).hex()] for i, v in sh]
+                out["consumed"] = entropy.pos
+            except BaseException as e:
+                out["err"] = "%s: %s" % (type(e).__name__, e)
+            try:
+                with os.fdopen(w, "w") as f:
+                    f.write(json.dumps(out))
+            finally:
+                os._exit(0)
+        os.close(w)
+        with os.fdopen(r) as f:
+            blob = f.read()
+        os.waitpid(pid, 0)
+        ctx.fault("proc.fork")
+        try:
+            out = json.loads(blob)
+        except ValueError:
+            return
+        if out.get("err") or "shares" not in out:
+            return
+        pts = [(i, int(v, 16)) for i, v in out["shares"]]
+        if ssss:
+            pts = [(x, y ^ G.power(x, k)) for x, y in pts]
+        coeffs = G.interpolate(pts[:k])
+        want = sorted(int.from_bytes(child_tape[i:i + 16], "big") for i in range(0, 16 * (k - 1), 16))
+        ctx.probe("dealt_after_fork")
+        if sorted(coeffs[1:]) != want:
+            ctx.violate("shamir/split/after-fork/coefficients-not-from-own-rng",
+                        "a process forked after a deal: the coefficients of the child's next deal are not the blocks its own random source "
+                        "delivers (the child asked for %d bytes): two processes continuing from one memory image deal with the same "
+                        "coefficients" % out.get("consumed", -1),
+                        observed=[hex(c)[:14] for c in sorted(coeffs[1:])], expected=[hex(c)[:14] for c in want])
 
     def simplify(self, case):
         if case["n"] > case["k"]:
